@@ -132,11 +132,20 @@ typedef struct {
 static hop_t H[4096];
 static int NH;
 static void
-build_history(void)
+build_history(int rr)
 {
         NH = 0;
         for (int i = 0; i < 5; i++)
                 H[NH++] = (hop_t){ 0, 0, 0 };
+        if (rr) { /* second history: round-robin over the units - every lane manager partially occupied at the same time */
+                for (int i = 0; i < 15; i++)
+                        for (int ui = 0; ui < NUNITS; ui++) {
+                                H[NH++] = (hop_t){ 1, (uint8_t) ui, (uint8_t) ((i * 5 + ui * 3) & 3) };
+                                if ((i * NUNITS + ui) % 37 == 36)
+                                        H[NH++] = (hop_t){ 0, 0, 0 };
+                        }
+                return;
+        }
         for (int ui = 0; ui < NUNITS; ui++) {
                 for (int i = 0; i < 15; i++)
                         H[NH++] = (hop_t){ 1, (uint8_t) ui, (uint8_t) ((i * 7 + ui) & 3) };
@@ -306,7 +315,7 @@ crashed(long item, int sig, void *arg)
 }
 
 int
-main(void)
+main(int argc, char **argv)
 {
         rec_init("C15", getenv("VERIF_TIER") ? getenv("VERIF_TIER") : "quick");
         thorough = tier_thorough();
@@ -325,7 +334,7 @@ main(void)
                 if (ALGS[a].kind != AK_HASH && !ALGS[a].lane_enc_only)
                         UNITS[NUNITS++] = (unit_t){ a, 0 };
         }
-        build_history();
+        build_history(argc > 1 && !strcmp(argv[1], "h1"));
         par_run(NVARIANTS * NVARIANTS, n_workers(), run_pair, crashed, NULL, 1800);
         rec_begin("meta");
         rec_s("rule", "case = (old variant, new variant, re-init point = prefix of the dirtying history); history parks up to 15 "
